@@ -33,7 +33,7 @@ ANCHOR_FILES = ("_core", "_actions", "_typehints", "_common", "_link_arguments",
 NO_SHRINK = ("parsers/*/opts", "parsers/*/opts/*", "world", "pristine")
 SHRINK_DICTS = ("world/files", "world/env")
 
-FEATURES = ["l", "dd", "hd", "base", "bdef", "ilink", "model", "fn", "probe", "cfg", "sub", "dcf", "env", "lst"]
+FEATURES = ["l", "uif", "dd", "hd", "base", "bdef", "ilink", "model", "fn", "probe", "cfg", "sub", "dcf", "env", "lst"]
 
 
 def parser_spec(feats, eoe):
@@ -42,6 +42,8 @@ def parser_spec(feats, eoe):
         args.insert(0, {"k": "cfg"})
     if "l" in feats:
         args.append({"k": "arg", "name": "l", "type": "list_int", "default": []})
+    if "uif" in feats:
+        args.append({"k": "arg", "name": "uif", "type": "union_int_float", "default": 1})
     if "dd" in feats:
         args.append({"k": "arg", "name": "dd", "type": "opt_D", "default": None})
     if "hd" in feats:
@@ -78,6 +80,7 @@ def parser_spec(feats, eoe):
 ARGV = {
     "_": [[], ["--help"], ["--unknown=1"], ["--a=1"], ["--a=x"], ["--a", "7"], ["--a"]],
     "l": [["--l+=1"], ["--l=[1,2]"], ["--l+=x"], ["--l+=[3,4]"]],
+    "uif": [["--uif=2"], ["--uif=2.0"], ["--uif=3.0"], ["--cfg", '{"uif": 2.0}']],
     "dd": [["--dd.u=3"], ['--dd={"u":2,"w":[1]}'], ["--dd.zz=1"], ["--dd=null"]],
     "hd": [["--hd.d.u=5", "--hd.d.w=[3.0]"], ["--hd.d.w=[1.5]"], ["--hd.d.u=6"], ["--hd.k=2"], ['--hd.d={"u": 8}'], ["--hd.d=null"], ["--hd.d.u=x"]],
     "base": [
@@ -124,8 +127,9 @@ ARGV = {
     ],
 }
 OBJ = {
-    "_": [{}, {"a": 3}, {"a": "x"}, {"zz": 1}],
+    "_": [{}, {"a": 3}, {"a": 3.0}, {"a": "x"}, {"zz": 1}, {"a": 4.0}],
     "l": [{"l": [1, 2]}, {"l": "x"}],
+    "uif": [{"uif": 2}, {"uif": 2.0}, {"uif": 3.0}],
     "dd": [{"dd": {"u": 5}}, {"dd": {"u": "x"}}],
     "hd": [{"hd": {"d": {"u": 7}}}, {"hd": {"d": {"w": [2.0]}}}, {"hd": {"k": 3}}],
     "base": [{"base": {"class_path": "dsim.simtypes.Sub1"}}, {"base": {"class_path": "dsim.simtypes.Sub1", "init_args": {"child": {"class_path": "Base"}}}}, {"base": {"class_path": "os.path"}}],
@@ -145,7 +149,8 @@ ENVS = {
     "bdef": [{"APP_BDEF": "Base"}, {"APP_BDEF": "dsim.simtypes.Sub2"}],
 }
 STR = {
-    "_": ["a: 4\n", "a: [\n", "{}", "zz: 1"],
+    "_": ["a: 4\n", "a: 4.0\n", "a: 3.0\n", "a: [\n", "{}", "zz: 1"],
+    "uif": ["uif: 2\n", "uif: 2.0\n", "uif: 3\n", "uif: 3.0\n"],
     "l": ["a: 2\nl: [5]\n", '{"l": [1, "x"]}'],
     "base": ["base: Sub1\n", '{"base": {"init_args": {"n": 3}}}', '{"base": {"init_args": {"child": "Base"}}}', "base: null\n"],
     "bdef": ["bdef: Base\n", "bdef:\n  class_path: dsim.simtypes.Sub2\n", '{"bdef": {"init_args": {"n": 3}}}', '{"bdef": {"init_args": {"opts": {"b": 1.0}}}}'],
@@ -375,6 +380,27 @@ def ctxvars():
     return _CTXVARS
 
 
+_GLOBALS0 = {}
+
+
+def module_containers():
+    """(module.name -> size) of every module-level dict / list / set of jsonargparse"""
+    import sys as _sys
+
+    out = {}
+    for mn, mod in list(_sys.modules.items()):
+        if mn == "jsonargparse" or mn.startswith("jsonargparse."):
+            for n, v in list(vars(mod).items()):
+                if isinstance(v, (dict, list, set)) and not n.startswith("__"):
+                    out[mn.replace("jsonargparse.", "") + "." + n] = len(v)
+    return out
+
+
+def globals_residue():
+    now = module_containers()
+    return sorted(k for k, v in now.items() if _GLOBALS0.get(k) != v)
+
+
 def ctx_residue():
     out = []
     for name, (var, init) in sorted(ctxvars().items()):
@@ -473,6 +499,9 @@ def residue_tag(pre, R, F):
             return d
     if _ActionHelpClassPath.sub_add_kwargs:
         return "class-attr:_ActionHelpClassPath.sub_add_kwargs"
+    g = globals_residue()
+    if g:
+        return "module-global:" + ",".join(g)[:120]
     cv = ctx_residue()
     if cv:
         return "ctxvar:" + ",".join(cv)
@@ -514,6 +543,8 @@ def execute(sc, ctx):
     root = ctx.root
     golden = getattr(ctx, "golden", False)
     ctxvars()
+    _GLOBALS0.clear()
+    _GLOBALS0.update(module_containers())
     cwd0, ns0 = os.getcwd(), argparse.Namespace
     # pristine server: forked before any parser exists or any operation ran
     srv = None
